@@ -4,6 +4,7 @@ from __future__ import annotations
 from ..report import Run
 from ..src import Program
 from . import isotp
+from .common import run_as
 
 EXPLANATION = (
     "Exception-freedom and typestate analysis of IsoTpStateMachine.decode_rx_frame on its CFG: "
@@ -31,6 +32,8 @@ def check(prog: Program, run: Run) -> None:
     run.rule("C13.R3", "a sequence error changes no state and yields nothing", floor=3)
     fr = isotp.Frame(prog)
     isotp.c13_no_raise(prog, fr, run)
+    isotp.c13_callbacks(prog, run)
+    run_as(run, "C12.R3", "C13.R1", lambda r: isotp.c12_log_regex(prog, r))
     isotp.c13_typestate(prog, fr, run)
     isotp.c13_seq_error(fr, run)
     run.info("functions", [fr.f.key])
